@@ -118,17 +118,25 @@ Record ginv_l (s : st) (g : ghost) : Prop := {
   gl_answer : answering s -> g_answer_fresh g = true ->
               exists a, last_answer s = Some a /\ g_last g = Some (sec_mids a) }.
 
+(* a generated description every section of which was accepted: pairwise
+   distinct mids, every section with a mid, a known media type and a direction *)
+Definition wf_l (d : ldesc) : Prop :=
+  NoDup (sec_mids d) /\
+  forall x, In x (l_secs d) -> l_mid x <> None /\ l_kind x <> KOther /\ l_dir x <> None.
+
 (* ... and the part that makes "the index of a mid" well defined: *)
 Record ginv_d (s : st) (g : ghost) : Prop := {
   gd_inv : inv s;
   gd_nodup : Forall (@NoDup (option string)) (g_applied g);
   gd_offer : sig s = Stable -> g_offer_fresh g = true ->
-             exists d, last_offer s = Some d /\ NoDup (sec_mids d) }.
+             exists d, last_offer s = Some d /\ wf_l d;
+  gd_answer : answering s -> g_answer_fresh g = true ->
+              exists a, last_answer s = Some a /\ wf_l a }.
 
 Lemma ginv_l_init : ginv_l init ghost0.
 Proof. constructor; cbn; auto; intros _ [=]. Qed.
 Lemma ginv_d_init : ginv_d init ghost0.
-Proof. constructor; cbn; auto using inv_init. intros _ [=]. Qed.
+Proof. constructor; cbn; auto using inv_init; intros _ [=]. Qed.
 
 (* what a call leaves alone *)
 Definition frame (s s' : st) : Prop :=
@@ -144,7 +152,43 @@ Proof.
 Qed.
 Lemma frame_ginv_d s s' g : frame s s' -> inv s' -> ginv_d s g -> ginv_d s' g.
 Proof.
-  intros (Fs & Fc & Fp & Fo & Fa) Hinv [_ Hnd Ho]. constructor; auto. rewrite Fs, Fo. exact Ho.
+  intros (Fs & Fc & Fp & Fo & Fa) Hinv [_ Hnd Ho Ha]. constructor; auto.
+  - rewrite Fs, Fo. exact Ho.
+  - unfold answering. rewrite Fs, Fa. exact Ha.
+Qed.
+
+(* the sections populate writes when every kind has a codec *)
+Lemma populate_wf_secs c g secs p :
+  (forall k, c k = true) -> populate c g secs = Ok p ->
+  forall x, In x (fst p) -> l_mid x <> None /\ l_kind x <> KOther /\ l_dir x <> None.
+Proof.
+  intros Hc H x Hx. destruct (populate_all_codecs _ _ _ _ Hc H) as [E1 _]. rewrite E1 in Hx.
+  apply in_map_iff in Hx. destruct Hx as (m & <- & _). unfold lsec_of, accepted_section. cbn.
+  repeat split; try discriminate. destruct m as [id|id k d sn]; cbn; [discriminate|destruct k; discriminate].
+Qed.
+
+Lemma create_offer_wf s s' d :
+  inv s -> offer_guard s -> create_offer s = (s', Ok d) -> wf_l d.
+Proof.
+  intros Hinv Hg H. split.
+  - pose proof (create_offer_c06 s s' d Hinv Hg H) as (_ & Hn & _). exact Hn.
+  - destruct Hg as (_ & _ & _ & Hcod). unfold create_offer in H. set (s1 := offer_alloc s) in *.
+    destruct (offer_sections s1) as [l [[[base add] g]|e|]] eqn:E; try discriminate.
+    destruct (populate (has_codecs (set_trs s1 l)) g (with_data add base)) as [p|e|] eqn:P; try discriminate.
+    destruct (local_changed l (mk_ldesc p)); [discriminate|]. injection H as _ <-.
+    exact (populate_wf_secs _ _ _ _ (fun k => eq_trans (has_codecs_offer_alloc s k) (Hcod k)) P).
+Qed.
+
+Lemma create_answer_wf s s' a :
+  inv s -> codecs_ok s -> create_answer s = (s', Ok a) -> wf_l a.
+Proof.
+  intros Hinv Hcod H. split.
+  - pose proof (create_answer_c06 s s' a Hinv Hcod H) as (_ & Hn & _). exact Hn.
+  - unfold create_answer in H. destruct (remote_desc s) as [rd|]; [|discriminate].
+    destruct (sig s); try discriminate;
+      (destruct (gen_matched s rd false) as [l [[[secs add] g]|e|]] eqn:E; try discriminate;
+       destruct (populate (has_codecs (set_trs s l)) g secs) as [p|e|] eqn:P; try discriminate;
+       injection H as _ <-; exact (populate_wf_secs _ _ _ _ Hcod P)).
 Qed.
 
 Lemma nodup_mids_of_r d : rdesc_ok d -> NoDup (mids_of_r d).
@@ -418,7 +462,7 @@ Lemma gstep_ginv_d s g o :
   ginv_l s g -> ginv_d s g -> chain_guard s g o ->
   ginv_d (fst (step s o)) (ghost_step g s o (snd (step s o))).
 Proof.
-  intros HL HD Hg. pose proof HL as [Hch Hl Ho Ha]. pose proof HD as [Hinv Hnd Hod].
+  intros HL HD Hg. pose proof HL as [Hch Hl Ho Ha]. pose proof HD as [Hinv Hnd Hod Had].
   assert (Hinv' : inv (fst (step s o))).
   { apply step_inv; [exact Hinv| |].
     - intros ty d ->. exact (proj1 Hg).
@@ -429,17 +473,25 @@ Proof.
     cbn [chain_guard] in Hg.
     cbn [step] in *. destruct (create_offer s) as [s' r] eqn:E. cbn [fst snd] in *.
     pose proof (create_offer_frame s) as (Fs & Fc & Fp & Fa & Fo). rewrite E in Fs, Fc, Fp, Fa, Fo. cbn [fst snd] in *.
+    assert (Had' : forall g', g_answer_fresh g' = g_answer_fresh g ->
+                    answering s' -> g_answer_fresh g' = true -> exists a, last_answer s' = Some a /\ wf_l a).
+    { intros g' Ef. unfold answering. rewrite Fs, Fa, Ef. exact Had. }
     unfold ghost_step. cbn [applies]. destruct r as [d|e|].
-    + apply Build_ginv_d; cbn [g_applied g_offer_fresh]; [exact Hinv'|exact Hnd|].
-      intros _ _. exists d. split; [exact Fo|].
-      pose proof (create_offer_c06 s s' d Hinv Hg E) as (_ & Hn & _). exact Hn.
-    + apply Build_ginv_d; [exact Hinv'|exact Hnd|rewrite Fs, Fo; exact Hod].
-    + apply Build_ginv_d; [exact Hinv'|exact Hnd|rewrite Fs, Fo; exact Hod].
+    + apply Build_ginv_d; [exact Hinv'|exact Hnd| |apply Had'; reflexivity].
+      cbn [g_applied g_offer_fresh]. intros _ _. exists d. split; [exact Fo|].
+      exact (create_offer_wf s s' d Hinv Hg E).
+    + apply Build_ginv_d; [exact Hinv'|exact Hnd|rewrite Fs, Fo; exact Hod|apply Had'; reflexivity].
+    + apply Build_ginv_d; [exact Hinv'|exact Hnd|rewrite Fs, Fo; exact Hod|apply Had'; reflexivity].
   - (* CreateAnswer *)
+    cbn [chain_guard] in Hg.
     cbn [step] in *. destruct (create_answer s) as [s' r] eqn:E. cbn [fst snd] in *.
     pose proof (create_answer_frame s) as (Fs & Fc & Fp & Fo & Fa). rewrite E in Fs, Fc, Fp, Fo, Fa. cbn [fst snd] in *.
-    unfold ghost_step. cbn [applies].
-    destruct r as [a|e|]; (apply Build_ginv_d; cbn [g_applied g_offer_fresh]; [exact Hinv'|exact Hnd|rewrite Fs, Fo; exact Hod]).
+    unfold ghost_step. cbn [applies]. destruct r as [a|e|].
+    + apply Build_ginv_d; cbn [g_applied g_offer_fresh g_answer_fresh];
+        [exact Hinv'|exact Hnd|rewrite Fs, Fo; exact Hod|].
+      intros _ _. exists a. split; [exact Fa|]. exact (create_answer_wf s s' a Hinv Hg E).
+    + apply Build_ginv_d; [exact Hinv'|exact Hnd|rewrite Fs, Fo; exact Hod|unfold answering; rewrite Fs, Fa; exact Had].
+    + apply Build_ginv_d; [exact Hinv'|exact Hnd|rewrite Fs, Fo; exact Hod|unfold answering; rewrite Fs, Fa; exact Had].
   - (* SetLocal *)
     cbn [chain_guard] in Hg. cbn [step] in *.
     destruct (set_local s ty) as [s' r] eqn:E. cbn [fst snd] in *.
@@ -447,16 +499,19 @@ Proof.
     destruct (local_next (sig s) ty) as [g'|] eqn:N.
     + pose proof (set_local_fields s ty g' N) as (Fs & Fo & Fa & Fr). rewrite E in Fs, Fo, Fa, Fr. cbn [fst] in *.
       destruct (local_next_cases _ _ _ N) as [(-> & Hs & ->)|[(-> & Hs & ->)|(-> & Hs & ->)]].
-      * destruct (Hod Hs Hg) as (d & Ed & Hnd1). rewrite Ed. cbn [mids_of_l].
-        apply Build_ginv_d; cbn [g_applied g_offer_fresh]; [exact Hinv'|constructor; assumption|intros _ [=]].
+      * destruct (Hod Hs Hg) as (d & Ed & Hnd1 & _). rewrite Ed. cbn [mids_of_l].
+        apply Build_ginv_d; cbn [g_applied g_offer_fresh g_answer_fresh];
+          [exact Hinv'|constructor; assumption|intros _ [=]|unfold answering; rewrite Fs; intros [[=]|[=]]].
       * destruct (Ha (or_introl Hs) Hg) as (a & Ea & Hlast). rewrite Ea. cbn [mids_of_l].
-        apply Build_ginv_d; cbn [g_applied g_offer_fresh]; [exact Hinv'| |intros _ [=]].
-        constructor; [|assumption].
-        unfold g_last in Hlast. destruct (g_applied g) as [|p rest]; [discriminate|].
-        injection Hlast as <-. inversion Hnd; assumption.
+        apply Build_ginv_d; cbn [g_applied g_offer_fresh g_answer_fresh]; [exact Hinv'| |rewrite Fs; intros [=]|].
+        -- constructor; [|assumption].
+           unfold g_last in Hlast. destruct (g_applied g) as [|p rest]; [discriminate|].
+           injection Hlast as <-. inversion Hnd; assumption.
+        -- intros _ Hf. rewrite Fa. apply Had; [left; exact Hs|exact Hf].
       * assert (Hans : answering s) by exact Hs.
         destruct (Ha Hans Hg) as (a & Ea & Hlast). rewrite Ea. cbn [mids_of_l].
-        apply Build_ginv_d; cbn [g_applied g_offer_fresh]; [exact Hinv'| |intros _ [=]].
+        apply Build_ginv_d; cbn [g_applied g_offer_fresh g_answer_fresh];
+          [exact Hinv'| |intros _ [=]|unfold answering; rewrite Fs; intros [[=]|[=]]].
         constructor; [|assumption].
         unfold g_last in Hlast. destruct (g_applied g) as [|p rest]; [discriminate|].
         injection Hlast as <-. inversion Hnd; assumption.
@@ -466,8 +521,13 @@ Proof.
     destruct (set_remote s ty d) as [s' r] eqn:E. cbn [fst snd] in *.
     unfold ghost_step. cbn [applies].
     destruct (remote_next (sig s) ty) as [g'|] eqn:N.
-    + apply Build_ginv_d; cbn [g_applied g_offer_fresh];
-        [exact Hinv'|constructor; [apply nodup_mids_of_r; exact Hrd|assumption]|intros _ [=]].
+    + pose proof (set_remote_fields s ty d g' N) as (Fs & Fo & Fa & Fr). rewrite E in Fs, Fo, Fa, Fr. cbn [fst] in *.
+      apply Build_ginv_d; cbn [g_applied g_offer_fresh g_answer_fresh];
+        [exact Hinv'|constructor; [apply nodup_mids_of_r; exact Hrd|assumption]|intros _ [=]|].
+      destruct (remote_next_cases _ _ _ N) as [(-> & Hs & ->)|[(-> & Hs & ->)|(-> & Hs & ->)]].
+      * intros _ [=].
+      * unfold answering. rewrite Fs. intros [[=]|[=]].
+      * unfold answering. rewrite Fs. intros [[=]|[=]].
     + pose proof (applies_none_frame_remote s ty d N) as Es. rewrite E in Es. cbn [fst] in Es. subst s'. exact HD.
 Qed.
 
@@ -530,7 +590,7 @@ Lemma chain_lemma ops :
 Proof.
   intros Hg i j di dj Hij Hi Hj.
   pose proof (chain_extends_lemma ops (hist_guard_light_of ops Hg) i j di dj Hij Hi Hj) as Hext.
-  pose proof (grun_ginv_d ops init ghost0 ginv_l_init ginv_d_init Hg) as [_ Hnd _].
+  pose proof (grun_ginv_d ops init ghost0 ginv_l_init ginv_d_init Hg) as [_ Hnd _ _].
   pose proof (grun_applied ops init ghost0) as Ea. cbn [ghost0 g_applied] in Ea. rewrite app_nil_r in Ea.
   fold (applied ops) in Ea. rewrite Ea in Hnd.
   assert (Hn : NoDup dj).
